@@ -162,6 +162,8 @@ type network struct {
 	allChans       map[string]bool
 	listModes      bool
 	who352         map[string]bool // nick -> a 352 for it has been sent
+	askedMode      map[string]bool // channel -> the client has sent MODE <channel> since it last joined it
+	askedWho       map[string]bool
 	pendingReplies []func()
 }
 
@@ -260,6 +262,8 @@ func highest(p map[byte]bool) byte {
 // ---- events -------------------------------------------------------------------
 
 func (n *network) evJoinMe(c *netChan) {
+	delete(n.askedMode, c.name)
+	delete(n.askedWho, c.name)
 	c.members[n.me] = map[byte]bool{}
 	if len(c.members) == 1 {
 		c.members[n.me]['o'] = true
@@ -648,7 +652,7 @@ func trackRun(e *Env) {
 		nEvents = 60
 	}
 	adversary := e.Prop == "C13" && g.Pct(35)
-	net := &network{e: e, g: g, allNicks: map[string]bool{}, allChans: map[string]bool{}, who352: map[string]bool{}}
+	net := &network{e: e, g: g, allNicks: map[string]bool{}, allChans: map[string]bool{}, who352: map[string]bool{}, askedMode: map[string]bool{}, askedWho: map[string]bool{}}
 	net.listModes = g.Pct(40)
 	flood := g.Pct(60)
 	names := []string{"alice", "bob", "carol", "dave", "erin", "frank", "grace", "heidi"}
@@ -742,6 +746,11 @@ func trackRun(e *Env) {
 				clientLines++
 				if (strings.HasPrefix(ln, "MODE ") || strings.HasPrefix(ln, "WHO ")) && len(strings.Fields(ln)) >= 2 {
 					queries = append(queries, ln)
+					if f := strings.Fields(ln); len(f) == 2 && f[0] == "MODE" {
+						net.askedMode[f[1]] = true
+					} else if len(f) == 2 {
+						net.askedWho[f[1]] = true
+					}
 				}
 			}
 		})
@@ -929,7 +938,7 @@ func trackRun(e *Env) {
 				h(c, l)
 			}
 		}
-		for _, v := range []string{"JOIN", "PART", "KICK", "QUIT", "NICK", "MODE", "TOPIC", "353", "352", "332", "324"} {
+		for _, v := range []string{"JOIN", "PART", "KICK", "QUIT", "NICK", "MODE", "TOPIC", "353", "352", "332", "324", "PING"} {
 			for k := g.Range(1, 3); k > 0; k-- {
 				c.Handle(v, slow(g.W(3, 1, 1, 1)*g.Range(1, 25), check("fg")))
 			}
@@ -1098,7 +1107,7 @@ func trackRun(e *Env) {
 			queries = nil
 			continue
 		}
-		switch k := g.S.ChooseW(4, 2, 5, 4, 2, 3, 3, 6, 1, 2, 1); {
+		switch k := g.S.ChooseW(4, 2, 5, 4, 2, 3, 3, 6, 1, 2, 1, 2); {
 		case k == 10 && len(onChans) > 0 && netjoins < 1 && !adversary:
 			// a netjoin: dozens of users the client has never seen join at once,
 			// so that its questions about them pile up in the output queue
@@ -1198,6 +1207,18 @@ func trackRun(e *Env) {
 		case k == 8 && adversary:
 			conformant = false
 			net.hostile(&uniq)
+		case k == 11:
+			// a line that changes nothing (the server's PING): its handlers have
+			// their place in the order of lines like those of any other line - the
+			// tracker shows everything before it and nothing after it
+			uniq++
+			names := []string{net.me.nick}
+			if len(onChans) > 0 {
+				ch := pick(onChans)
+				names = append(names, ch.name, net.sortedMembers(ch)[g.S.Choose(len(ch.members))].nick)
+			}
+			e.S.Count("probe.state-neutral-line-with-handlers")
+			net.send(fmt.Sprintf("PING :keepalive%d", uniq), names, true)
 		default:
 			// a checkpoint in the middle of the session
 			if g.S.Choose(3) == 0 {
@@ -1253,6 +1274,16 @@ func trackRun(e *Env) {
 	if e.Prop == "C13" && !e.S.Failed() {
 		if conformant {
 			compare("end of session")
+			// the modes a channel already has and the user@host of the users found on
+			// it are revealed only to a client that asks: after each of its own joins
+			// the client must have sent MODE <channel> and WHO <channel> - also when
+			// it has been on that channel before
+			for _, ch := range net.chans {
+				e.Check()
+				if net.meOn(ch) && dials == 1 && !e.S.Failed() && (!net.askedMode[ch.name] || !net.askedWho[ch.name]) {
+					e.Violation("tracker-differs", "the client is on %s but has not asked the server about it since it (last) joined: MODE sent=%v WHO sent=%v - it cannot know the channel's modes and its users' details", ch.name, net.askedMode[ch.name], net.askedWho[ch.name])
+				}
+			}
 		} else {
 			invariants("end of session (with non-conformant lines)")
 		}
